@@ -60,7 +60,7 @@ def gen(rng, tier, i):
         elif b.get('time') is not None:
             b['time_type'] = rng.choice(['f32', 'py', 'f64', 'int' if float(b['time']).is_integer() else 'py'])
     case = {'script': script, 'sims': sims, 'delays': wavegen.gen_delays(rng, n_sets=n_sets), 'caps': wavegen.gen_caps(rng, p_fault=0.3),
-            'batches': batches, 'actrl': wavegen.gen_actrl(rng, p=0.3)}
+            'argforms': wavegen.gen_argforms(rng), 'batches': batches, 'actrl': wavegen.gen_actrl(rng, p=0.3)}
     base = {'c_reuse': rng.random() < 0.3, 'strip_forks': rng.random() < 0.3}
     case['base'] = base
     kinds = ['reuse', 'strip', 'gpu', 'gpu', 'lanes', 'k', 'dataset', 'restore']
